@@ -8,7 +8,14 @@
      src/runner.rs     exec_seq, run_subplan_seq  restricted to the node kinds that the build
                        operations of this property create (Source, Stateless, CoGroup)
 
-   Abstraction. Elements are an arbitrary type V. A Stateless node carries the NAME f : F of
+   Abstraction. Elements are an arbitrary type V. `NStateless f` stands for ANY single-input node
+   (Node::Stateless, GroupByKey, CombineValues, CombineGlobal): exec_seq / run_subplan_seq apply
+   one function to the whole buffer for each of them, and every builder that creates one
+   (map, filter, flat_map, key_by, map_values, filter_values, map_batches, map_values_batches,
+   group_by_key, combine_values(_lifted), combine_globally(_lifted), apply_transform, and the
+   composites distinct, distinct_per_key, top_k_per_key, the windowing helpers) is the same
+   [insert_node; connect parent new] sequence, repeated once per node it inserts.
+   A Stateless node carries the NAME f : F of
    a user function and a CoGroup node the NAME g : G of a join function; names are opaque to
    every build operation.  Only the execution functions of the second section take an
    interpretation of the names (interp_f, interp_g), i.e. only they can apply a user function.
